@@ -40,6 +40,26 @@ impl NameMap {
         reserved_names: &[&str],
         intrinsics_are_reserved: bool,
     ) -> NameMap {
+        Self::build_with_parameter_globals(module, reserved_names, intrinsics_are_reserved, &[])
+    }
+
+    /// Construct a name map for a target that passes some global variables into functions as parameters
+    ///
+    /// Such a global is named without its namespace inside every function that receives it
+    /// Its name has to differ from the other parameter globals and no local variable may use it
+    pub fn build_with_parameter_globals(
+        module: &Module,
+        reserved_names: &[&str],
+        intrinsics_are_reserved: bool,
+        parameter_globals: &[GlobalId],
+    ) -> NameMap {
+        // Names that more than one parameter global wants to use
+        let mut parameter_global_names: HashMap<&str, usize> = HashMap::new();
+        for id in parameter_globals {
+            let name = module.global_registry[id.0 as usize].name.node.as_str();
+            *parameter_global_names.entry(name).or_default() += 1;
+        }
+
         let mut name_map = NameMap {
             names: HashMap::new(),
             member_names: HashMap::new(),
@@ -180,6 +200,30 @@ impl NameMap {
             all_source_names.insert(name.clone());
         }
 
+        // Parameter globals from different namespaces meet in one parameter list
+        // Those that share a name are named up front in the order they were given as the scopes are visited in no particular order
+        let mut parameter_global_picked: HashMap<GlobalId, String> = HashMap::new();
+        let mut parameter_global_picked_names: HashSet<String> = HashSet::new();
+        for id in parameter_globals {
+            let name = &module.global_registry[id.0 as usize].name.node;
+            if parameter_global_names.get(name.as_str()).copied().unwrap_or(0) > 1 {
+                let mut counter = 0;
+                let picked_name = loop {
+                    let candidate = format!("{}_{}", name, counter);
+
+                    if !all_source_names.contains(&candidate)
+                        && !reserved_name_set.contains(&candidate)
+                        && parameter_global_picked_names.insert(candidate.clone())
+                    {
+                        break candidate;
+                    }
+
+                    counter += 1;
+                };
+                parameter_global_picked.insert(*id, picked_name);
+            }
+        }
+
         for scope in &scopes {
             // Record used names within the current scope
             // Names may be reused in different namespaces
@@ -205,8 +249,18 @@ impl NameMap {
 
             for (name, symbols) in name_to_symbol_vec {
                 for symbol in symbols {
+                    // Parameter globals with a shared name already have their name
+                    let picked_name = match symbol {
+                        NameSymbol::GlobalVariable(id) => parameter_global_picked.get(id),
+                        _ => None,
+                    };
+
                     // Assign a name
-                    let name = if symbols.len() == 1 && used_names.insert(name.clone()) {
+                    let name = if let Some(picked_name) = picked_name {
+                        used_names.insert(picked_name.clone());
+                        used_names_all_scopes.insert(picked_name.clone());
+                        picked_name.clone()
+                    } else if symbols.len() == 1 && used_names.insert(name.clone()) {
                         // If there are no duplicate names and the direct name is free then use that
                         name.clone()
                     } else {
@@ -216,6 +270,7 @@ impl NameMap {
                             let candidate = format!("{}_{}", name, counter);
 
                             if !all_source_names.contains(&candidate)
+                                && !parameter_global_picked_names.contains(&candidate)
                                 && used_names.insert(candidate.clone())
                             {
                                 used_names_all_scopes.insert(candidate.clone());
@@ -240,6 +295,13 @@ impl NameMap {
 
         // We generally assume the names setup for local variables will not conflict
         // This will not be the case if we generate a name - so first find all the names we do not want to generate into
+
+        // Local variables share their function with the parameter globals
+        for id in parameter_globals {
+            if let Some(name) = name_map.names.get(&NameSymbol::GlobalVariable(*id)) {
+                used_names_all_scopes.insert(name.name.clone());
+            }
+        }
 
         let mut all_local_names = HashSet::new();
         for id in module.variable_registry.iter() {
